@@ -6,6 +6,35 @@ import os
 ROOT = os.path.dirname(os.path.dirname(os.path.abspath(__file__)))
 
 CHECKS = {
+    "C10": dict(
+        cat="model_checking", ref="DESIGN.md 5/C10",
+        technique="TLA+ ownership fold Own (Layout.tla; a set of admissible maps, two where the text leaves the sharing of a byte open) "
+                  "as oracle; TLC explores S(getLength/read/write with hasFullByteOffset) x P to a fix-point (LayoutMC), enumerates "
+                  "the field-sequence domain with its admissible maps (C10Cases), and judges black-box ownership records of the "
+                  "real DataFieldSet (C10Judge)",
+        text="TLC proves the transcribed bookkeeping refines Own for field sequences of any length and emits every P-specified "
+             "sequence of the bounded domain (38k quick / 295k thorough); the harness builds each set from CSV text, discovers owned "
+             "bits by encoding one field at a time and by flipping every bit before decoding in 7 output formats, compares the three "
+             "length notions; TLC judges every record against the admissible map the real write realised and the "
+             "composition/alone/round-trip laws.",
+        note="Trusted: TLC's evaluation; harness logging. Domain bounded to 15 kinds, <=4(5) fields; descending/overlapping bit "
+             "successions not generated; placement after a same-first-bit restart unspecified (both admitted, but length/encode/decode "
+             "must agree); getLength with a '*' field only bounded; bit dependence observed on 4 base data per sequence."),
+    "C16": dict(
+        cat="model_checking", ref="DESIGN.md 5/C16",
+        technique="TLA+ oracle Access.tla (token membership, session monitor, sink rule): TLC judges exhaustive records of the real "
+                  "Message::checkLevel; TLC model-checks the code-shaped session model S against the monitor (S => P, vacuity: pinned "
+                  "variant rejected); TLC generates small worlds x sessions that an in-process daemon (real MainLoop thread, UserList from "
+                  "ACL file, MessageMap, BusHandler, DirectProtocolHandler on a fake transport with scripted slave, DataSink subclass) "
+                  "replays; TLC judges every command's response class, disclosed values, telegrams on the bus and poll priorities",
+        text="All level lists over {a,b,;,*} up to length 7 (8) x all levels over {a,b} up to length 3 are judged against Granted "
+             "(completeness asserted in TLA+). 344 (1244) worlds (ACL with default via option or '*' line, <=2 users, prefix/suffix/infix "
+             "level names, 3 message layouts) x 21 (43) sessions per layout (auth ok/bad/unknown/missing secret, read by name +-circuit, "
+             "-f, -p, -h, write, write -h, HTTP /data with 6 (8) credential forms and required/poll/write/exact) are replayed on the real "
+             "daemon and every command is judged; S => P is explored exhaustively for sessions of any length over the alphabet.",
+        note="Trusted: TLC's evaluation; harness logging; in-line stepping of the bus thread; standing clock. Open by decision: behaviour "
+             "after a failed auth (kept vs reset), error texts, 'usage' refusals. Outside: find -l, listen, define, MQTT/KNX classes "
+             "themselves."),
     "C01": dict(
         cat="model_checking", ref="DESIGN.md 5/C01",
         technique="TLA+ reference telegram parser (RecvMon, spec/BusMonitors.tla) model-checked by TLC on the transition graph "
